@@ -148,7 +148,12 @@ func runCase(c Case) vlib.Result {
 		g.OnClose(func(*nbio.Conn, error) { atomic.AddInt64(&closes, 1) })
 		g.OnData(func(conn *nbio.Conn, data []byte) { _, _ = conn.Write(data) })
 		core = g
-		if err := g.Start(); err != nil {
+		var serr error
+		if !vlib.StopEngine(func() { serr = g.Start() }, 15*time.Second) {
+			res.Err = fmt.Errorf("Engine.Start did not return within 15 s; goroutines: %v", extra(baseG, nbioGoroutines()))
+			return res
+		}
+		if err := serr; err != nil {
 			return vlib.Fail("harness: engine start: %v", err)
 		}
 		addrs = g.Addrs
@@ -185,7 +190,12 @@ func runCase(c Case) vlib.Result {
 				_ = conn.Close()
 			}
 		})
-		if err := e.Start(); err != nil {
+		var serr error
+		if !vlib.StopEngine(func() { serr = e.Start() }, 15*time.Second) {
+			res.Err = fmt.Errorf("nbhttp Engine.Start did not return within 15 s; goroutines: %v", extra(baseG, nbioGoroutines()))
+			return res
+		}
+		if err := serr; err != nil {
 			return vlib.Fail("harness: http engine start: %v", err)
 		}
 		addrs = e.Addrs
@@ -546,6 +556,7 @@ func TestCheck(t *testing.T) {
 	}()
 	_ = bigFile()
 	vlib.RunCheck(r, vlib.Check[Case]{Name: "stop", N: r.Pick(1200, 20000), Gen: gen, Run: runCase, Confirm: true, RecordCurrent: true})
+	vlib.RunCases(r, "start-failure", startFailureCells(), runStartFailure, true)
 	r.Finish()
 }
 
@@ -566,4 +577,104 @@ func bigFile() string {
 		bigFilePath = f.Name()
 	})
 	return bigFilePath
+}
+
+// StartFailure: an engine that is given several addresses of which a later one cannot be bound (the port is
+// taken). Start has to give up - and its clean-up is a Stop of what it had already started: that Stop must
+// return and leave no goroutine or descriptor behind, like any other.
+type StartFailure struct {
+	Kind    string `json:"kind"` // core, http
+	Mode    string `json:"mode"`
+	IOMod   int    `json:"io_mod"`
+	Good    int    `json:"good_addrs"` // addresses that can be bound, listed before the taken one
+	TLS     bool   `json:"tls"`        // http: the taken address is among the TLS addresses
+	NPoller int    `json:"npoller"`
+}
+
+func runStartFailure(c StartFailure) vlib.Result {
+	res := vlib.Result{Classes: []string{"start-failure", "kind=" + c.Kind, fmt.Sprintf("iomod=%d", c.IOMod)}}
+	vlib.Logs.Take()
+	time.Sleep(2 * time.Millisecond)
+	runtime.GC()
+	baseG := nbioGoroutines()
+	taken, err := net.Listen("tcp", "127.0.0.1:0")
+	if err != nil {
+		return vlib.Fail("harness: listen: %v", err)
+	}
+	defer taken.Close()
+	baseFD := vlib.OpenFDs()
+	var addrs []string
+	for i := 0; i < c.Good; i++ {
+		addrs = append(addrs, "127.0.0.1:0")
+	}
+	addrs = append(addrs, taken.Addr().String())
+	var start func() error
+	var stop func()
+	switch c.Kind {
+	case "core":
+		conf := nbio.Config{Network: "tcp", Addrs: addrs, NPoller: c.NPoller}
+		vlib.ApplyMode(&conf, c.Mode)
+		g := nbio.NewEngine(conf)
+		start, stop = g.Start, g.Stop
+	default:
+		conf := nbhttp.Config{Network: "tcp", NPoller: c.NPoller, IOMod: c.IOMod, MaxBlockingOnline: 2,
+			Handler: http.HandlerFunc(func(w http.ResponseWriter, r *http.Request) { _, _ = w.Write([]byte("ok")) })}
+		vlib.ApplyHTTPMode(&conf, c.Mode)
+		if c.TLS {
+			conf.Addrs = addrs[:len(addrs)-1]
+			conf.AddrsTLS = addrs[len(addrs)-1:]
+			conf.TLSConfig = vlib.ServerTLSConfig()
+		} else {
+			conf.Addrs = addrs
+		}
+		e := nbhttp.NewEngine(conf)
+		start, stop = e.Start, e.Stop
+	}
+	var startErr error
+	returned := vlib.StopEngine(func() { startErr = start() }, 10*time.Second)
+	if !returned {
+		res.Err = fmt.Errorf("Start of an engine whose %d. address is taken did not return within 10 s (its clean-up stops what was started before and never comes back); goroutines: %v", len(addrs), extra(baseG, nbioGoroutines()))
+		return res
+	}
+	if startErr == nil {
+		// nothing failed after all (the kernel let both bind, e.g. SO_REUSEPORT): stop normally
+		res.Classes = append(res.Classes, "start-succeeded (not asserted)")
+		vlib.StopEngine(stop, 10*time.Second)
+		return res
+	}
+	var eg, efd []string
+	ok := vlib.WaitUntil(2*time.Second, func() bool {
+		eg = extra(baseG, nbioGoroutines())
+		efd = efd[:0]
+		for fd, link := range vlib.OpenFDs() {
+			if _, was := baseFD[fd]; !was {
+				efd = append(efd, fmt.Sprintf("%d->%s", fd, link))
+			}
+		}
+		return len(eg) == 0 && len(efd) == 0
+	})
+	if !ok {
+		sort.Strings(efd)
+		if len(eg) > 0 {
+			res.Err = fmt.Errorf("Start returned %v, but 2 s later goroutines of the library are still alive: %v", startErr, eg)
+		} else {
+			res.Err = fmt.Errorf("Start returned %v, but 2 s later descriptors it opened are still open: %v", startErr, efd)
+		}
+		return res
+	}
+	res.NonTrivial = c.Good > 0
+	return res
+}
+
+func startFailureCells() []StartFailure {
+	var out []StartFailure
+	for _, good := range []int{0, 1, 2} {
+		out = append(out, StartFailure{Kind: "core", Mode: vlib.ModeLT, Good: good, NPoller: 2})
+		for _, io := range []int{nbhttp.IOModNonBlocking, nbhttp.IOModBlocking, nbhttp.IOModMixed} {
+			for _, tl := range []bool{false, true} {
+				out = append(out, StartFailure{Kind: "http", Mode: vlib.ModeLT, IOMod: io, Good: good, TLS: tl, NPoller: 2})
+			}
+		}
+	}
+	return out
 }
